@@ -455,7 +455,11 @@ pub fn run_subcheck(ctx: &RunCtx, prop: &Property, sc: &SubCheck, known: &[Known
             }
         }
         Driver::Generated { gen, genome_len, quick, thorough } => {
-            let total = if ctx.tier == Tier::Quick { *quick } else { *thorough };
+            let mut total = if ctx.tier == Tier::Quick { *quick } else { *thorough };
+            // analysis tools (tools/matrix.sh) may scale the case counts down; registered commands never set this
+            if let Some(pct) = std::env::var("VERIF_CASES_PERCENT").ok().and_then(|s| s.parse::<u64>().ok()) {
+                total = (total * pct.clamp(1, 100) / 100).max(SHARDS as u64);
+            }
             let per = (total + SHARDS as u64 - 1) / SHARDS as u64;
             let results: Vec<(Stats, Vec<(Value, Failure)>)> = std::thread::scope(|s| {
                 let handles: Vec<_> = (0..SHARDS)
